@@ -239,7 +239,7 @@ impl Property for C20 {
         let many = rng.chance(1, 120);
         if many {
             // scale: more than 255 / 256 package directories
-            let k = *rng.pick(&[257usize, 258, 300, 520, 700]);
+            let k = *rng.pick(&[257usize, 258, 300, 520]);
             for i in 0..k {
                 names.push(format!("pkg{}-1.{}nb{}", i, i % 50, i % 3).into_bytes());
             }
@@ -273,7 +273,19 @@ impl Property for C20 {
             .map(|name| {
                 let mut order: Vec<usize> = (0..NFILES).collect();
                 rng.shuffle(&mut order);
-                let crash_at = if rng.chance(crash_rate, 8) {
+                if many {
+                    // (a scale database is about the number of directories: each holds its
+                    // three mandatory files and one more - thousands of files per run are
+                    // seconds on a disk-backed scratch directory)
+                    order.retain(|f| ![F_COMMENT, F_CONTENTS, F_DESC].contains(f));
+                    let mut head = vec![F_COMMENT, F_CONTENTS, F_DESC];
+                    rng.shuffle(&mut head);
+                    head.extend(order);
+                    order = head;
+                }
+                let crash_at = if many {
+                    if rng.chance(1, 12) { rng.urange(0, 2) } else { 4 }
+                } else if rng.chance(crash_rate, 8) {
                     match rng.below(6) {
                         0 => 0,
                         1 => NFILES - 1,
@@ -299,7 +311,7 @@ impl Property for C20 {
                             }
                         })
                         .collect(),
-                    extras: if rng.chance(1, 6) { rng.urange(1, 40) } else { 0 },
+                    extras: if !many && rng.chance(1, 6) { rng.urange(1, 40) } else { 0 },
                 }
             })
             .collect();
